@@ -12,6 +12,13 @@ Every translated writer is proved equal — as a **string** — to `render (toWk
 kind, for every shape (`*_eq`), the translated `linear_rings` to the model's; the headline theorems of `Props/C13.lean`
 (`Type.from_wkt(shape.to_wkt())` and `parse_wkt(shape.to_wkt())` give the shape back) are restated for the translated
 writers (`src_readAs_roundtrip`, `src_parseWkt_roundtrip`).
+
+Readers: the regular expressions are not modelled (as in `Model/Wkt.lean`); what is translated is the hand-written logic
+behind them — `Coordinate.__eq__`, `Coordinate.from_wkt` (fewer than two parts is a `ValueError`, the extras go to the
+letters of the order, lazily: `map(float, …)` under `zip`), `_parse_wkt_linear_ring` (tag / dimension agreement, minimum
+number of points, ring closure) — proved equal to the model's `Coord.eqv`, `coordFromToks`, `parseRing`
+(`coordEq_eq`, `coordFromWkt_eq`, `parseLinearRing_eq`); `src_parse_rejects`, `src_parse_open_ring` read the F13 checks
+off the translated source.  The `from_wkt` methods of the shape classes (which regex feeds which ring) are not translated.
 -/
 set_option linter.unusedSimpArgs false
 
@@ -356,6 +363,218 @@ theorem ringToWkt_wedge (v : Src.Wkt.RingView F) (hw : ¬ (v.amin = 0 ∧ v.amax
   all_goals simp [e1, e2, h1, h2, hsuper]
 
 end Writers
+
+/-! ## readers: the hand-written logic behind the regular expressions -/
+
+section Readers
+variable {F : Type} (io : NumIO F)
+
+/-- **`Coordinate.__eq__`**: latitude, longitude and Z (M is not compared) -/
+theorem coordEq_eq (a b : Coord F) : Src.Wkt.coordEq io a b = Coord.eqv io a b := by
+  simp [Src.Wkt.coordEq, Coord.eqv, Bool.and_assoc]
+
+/-- the translator's comprehension-with-exceptions is the model's -/
+theorem mapE_eq {α β : Type} (f : α → Except String β) : ∀ l : List α, GV.Py.mapE f l = GV.Wkt.mapE f l
+  | [] => rfl
+  | x :: xs => by
+    have ih := mapE_eq f xs
+    cases hfx : f x with
+    | error e => simp [GV.Py.mapE, GV.Wkt.mapE, hfx]
+    | ok y => cases hm : GV.Wkt.mapE f xs <;> simp [GV.Py.mapE, GV.Wkt.mapE, hfx, ih, hm]
+
+/-- `dict(zip(keys, map(float, tokens)))`: the tokens `zip` reaches are converted, the first failure is a `ValueError` -/
+theorem dictFloat_eq : ∀ (ks : List Char) (ts : List String),
+    Src.Wkt.dictFloat io (ks.zip ts) =
+      match rdAll io (ts.take ks.length) with
+      | some xs => .ok (ks.zip xs)
+      | none => .error "ERR:Value"
+  | [], ts => by simp [Src.Wkt.dictFloat, rdAll]
+  | k :: ks, [] => by simp [Src.Wkt.dictFloat, rdAll]
+  | k :: ks, t :: ts => by
+    have ih := dictFloat_eq ks ts
+    simp only [List.zip_cons_cons, Src.Wkt.dictFloat, List.length_cons, List.take_succ_cons, rdAll, ih]
+    cases io.rd t <;> cases rdAll io (ts.take ks.length) <;> simp
+
+theorem dictGet_cons (kv : Char × F) (d : List (Char × F)) (k : Char) :
+    Src.Wkt.dictGet (kv :: d) k = (Src.Wkt.dictGet d k).or (if kv.1 == k then some kv.2 else none) := by
+  simp only [Src.Wkt.dictGet, List.reverse_cons, List.find?_append, List.find?_cons, List.find?_nil]
+  cases d.reverse.find? (fun x => x.1 == k) <;> cases kv.1 == k <;> simp
+
+/-- the model's fold over the pairs, from any start: a later pair wins over an earlier one and over the start -/
+theorem zmFold_eq (d : List (Char × F)) : ∀ acc : Option F × Option F,
+    d.foldl (fun (acc : Option F × Option F) kv =>
+        if kv.1 = 'z' then (some kv.2, acc.2) else if kv.1 = 'm' then (acc.1, some kv.2) else acc) acc
+      = ((Src.Wkt.dictGet d 'z').or acc.1, (Src.Wkt.dictGet d 'm').or acc.2) := by
+  induction d with
+  | nil => intro acc; simp [Src.Wkt.dictGet]
+  | cons kv r ih =>
+    intro acc
+    rw [List.foldl_cons, ih, dictGet_cons, dictGet_cons]
+    by_cases hz : kv.1 = 'z'
+    · have hm : ¬ kv.1 = 'm' := by rw [hz]; decide
+      cases Src.Wkt.dictGet r 'z' <;> cases Src.Wkt.dictGet r 'm' <;> simp [hz]
+    · by_cases hm : kv.1 = 'm'
+      · cases Src.Wkt.dictGet r 'z' <;> cases Src.Wkt.dictGet r 'm' <;> simp [hm]
+      · cases Src.Wkt.dictGet r 'z' <;> cases Src.Wkt.dictGet r 'm' <;> simp [hz, hm]
+
+/-- `zm.get('z')`, `zm.get('m')` of the dict built from the pairs: what the model's fold assigns -/
+theorem zmAssign_eq (order : List Char) (ex : List F) :
+    zmAssign order ex = (Src.Wkt.dictGet (order.zip ex) 'z', Src.Wkt.dictGet (order.zip ex) 'm') := by
+  unfold zmAssign
+  rw [zmFold_eq]
+  simp
+
+/-- **`Coordinate.from_wkt(text, zm_order)`** on the split text: fewer than two parts is a `ValueError`, the extras go to
+    the letters of the (lower-cased) order, longitude and latitude through the constructor -/
+theorem coordFromWkt_eq (toks : CoordT) (order : String) :
+    Src.Wkt.coordFromWkt io () toks order = coordFromToks io order.toLower.toList toks := by
+  unfold Src.Wkt.coordFromWkt
+  match toks with
+  | [] => simp [coordFromToks]
+  | [a] => simp [coordFromToks]
+  | [a, b] =>
+    have h0 : zmAssign order.toLower.toList ([] : List F) = (none, none) := by
+      rw [zmAssign_eq]; simp [Src.Wkt.dictGet]
+    simp only [coordFromToks, List.take_nil, rdAll, h0]
+    cases ha : io.rd a <;> cases hb : io.rd b <;> simp [Src.Wkt.coordOfStrs, Src.Wkt.dictGet, ha, hb, h0]
+  | a :: b :: c :: rest =>
+    have hlen : ¬ ((((a :: b :: c :: rest).length : Nat) : Int) < 2) := by simp; omega
+    have hlen2 : ((((a :: b :: c :: rest).length : Nat) : Int) > 2) := by simp; omega
+    simp only [hlen, hlen2, decide_false, decide_true, Bool.false_eq_true, if_false, if_true]
+    simp only [List.drop_succ_cons, List.drop_zero, List.take_succ_cons, List.take_zero, dictFloat_eq, coordFromToks]
+    cases hr : rdAll io ((c :: rest).take order.toLower.toList.length) with
+    | none => simp
+    | some ex =>
+      cases ha : io.rd a <;> cases hb : io.rd b <;> simp [zmAssign_eq, Src.Wkt.coordOfStrs, ha, hb]
+
+/-! ### `_parse_wkt_linear_ring` -/
+
+theorem bne_cast (a b : Nat) : ((a : Int) != (b : Int)) = (a != b) := by
+  by_cases h : a = b
+  · subst h; simp
+  · have h' : ¬ ((a : Int) = (b : Int)) := by omega
+    rw [bne_iff_ne.2 h, bne_iff_ne.2 h']
+
+theorem bne_cast_add (a c b : Nat) : ((a : Int) != (c : Int) + (b : Int)) = (a != c + b) := by
+  rw [← Int.natCast_add, bne_cast]
+
+theorem ite_or_split {α : Type} (a b : Bool) (x y : α) :
+    (if a then x else if b then x else y) = if (a || b) then x else y := by
+  cases a <;> cases b <;> rfl
+
+theorem zm_lower : "ZM".toLower.toList = ['z', 'm'] := by
+  simp [String.toLower, String.toList_map]
+
+theorem toLower_ofList (t : List Char) : (String.ofList t).toLower.toList = t.map Char.toLower := by
+  simp [String.toLower, String.toList_map]
+
+/-- the closing checks of `_parse_wkt_linear_ring` -/
+theorem closing_eq (cs : List (Coord F)) (n : Nat) (closed : Bool) :
+    (if decide ((cs.length : Int) < (n : Int)) then (Except.error "ERR:Value" : Except String (List (Coord F)))
+     else if closed then
+       match GV.Py.getIdx cs 0 with
+       | .error e => .error e
+       | .ok a =>
+         match GV.Py.getLast cs with
+         | .error e => .error e
+         | .ok b => if !(Src.Wkt.coordEq io a b) then .error "ERR:Value" else .ok cs
+     else .ok cs)
+    = (if cs.length < n then .error "ERR:Value"
+       else if closed then
+         match cs.head?, cs.getLast? with
+         | some a, some b => if Coord.eqv io a b then .ok cs else .error "ERR:Value"
+         | _, _ => .error "ERR:Index"
+       else .ok cs) := by
+  have hn : decide ((cs.length : Int) < (n : Int)) = decide (cs.length < n) := by
+    simp
+  rw [hn]
+  by_cases hlt : cs.length < n
+  · simp [hlt]
+  · simp only [hlt, decide_false, Bool.false_eq_true, if_false]
+    cases closed with
+    | false => rfl
+    | true =>
+      cases cs with
+      | nil => rfl
+      | cons a t =>
+        simp only [GV.Py.getIdx, GV.Py.getLast, List.head?_cons, coordEq_eq, if_true]
+        cases hl : (a :: t).getLast? with
+        | none => simp at hl
+        | some b => cases h : Coord.eqv io a b <;> simp [h]
+
+/-- **`_parse_wkt_linear_ring(wkt_str, wkt_coords, min_points, closed)`**: the agreement of tag and dimensions, the
+    conversion of every coordinate (first exception wins), the minimum number of points and the ring closure are the
+    model's `parseRing`.  (`_RE_COORD.findall(wkt_coords)` = the coordinate texts of the ring, `_RE_ZM.findall(wkt_str)` =
+    the tag if there is one, `_RE_COORD.search(wkt_str)` = the first coordinate of the text: `Gen/SrcWkt.lean`.) -/
+theorem parseLinearRing_eq (w : Wkt) (ring : List CoordT) (n : Nat) (closed : Bool) :
+    Src.Wkt.parseLinearRing io w ring (n : Int) closed = parseRing io w ring n closed := by
+  have h2 : (2 : Int) = ((2 : Nat) : Int) := rfl
+  unfold Src.Wkt.parseLinearRing parseRing Body.dims Src.Wkt.tagList
+  cases hfc : w.body.firstCoord <;> cases ht : w.tag
+  all_goals simp only [mapE_eq, List.isEmpty_nil, List.isEmpty_cons, if_true, Bool.not_true, Bool.not_false,
+    Bool.false_eq_true, if_false, Bool.false_and, Bool.false_or, Bool.true_and, GV.Py.getIdx, coordFromWkt_eq,
+    toLower_ofList, zm_lower, String.length_ofList]
+  all_goals
+    (try rw [h2])
+    simp only [bne_cast, bne_cast_add, ite_or_split, zmOrder, List.isEmpty_nil, List.isEmpty_cons, if_true, if_false,
+      Bool.false_eq_true]
+    split
+    · rfl
+    · split
+      · rename_i heq; rw [heq]
+      · rename_i heq; rw [heq]; exact closing_eq io _ n closed
+
+/-- with `min_points` and `closed` left at their defaults (`GeoPoint`, `MultiGeoPoint`) -/
+theorem parseLinearRingDefault_eq (w : Wkt) (ring : List CoordT) :
+    Src.Wkt.parseLinearRingDefault io w ring = parseRing io w ring := by
+  have h : Src.Wkt.parseLinearRingDefault io w ring = Src.Wkt.parseLinearRing io w ring ((1 : Nat) : Int) false := by
+    unfold Src.Wkt.parseLinearRingDefault Src.Wkt.parseLinearRing
+    simp
+  rw [h]; exact parseLinearRing_eq io w ring 1 false
+
+/-- the checks of the F13 repairs, read off the translated source: a tag that disagrees with the first coordinate's
+    dimension, a coordinate of another dimension, too few points, an open polygon ring are `ValueError`s -/
+theorem src_parse_rejects (w : Wkt) (ring : List CoordT) (n : Nat) (closed : Bool)
+    (h : (w.tag ≠ [] ∧ w.body.dims ≠ 2 + w.tag.length) ∨ (∃ c ∈ ring, c.length ≠ w.body.dims)) :
+    Src.Wkt.parseLinearRing io w ring (n : Int) closed = .error "ERR:Value" := by
+  rw [parseLinearRing_eq]
+  unfold parseRing
+  have : ((!w.tag.isEmpty && w.body.dims != 2 + w.tag.length) || ring.any fun c => c.length != w.body.dims) = true := by
+    rcases h with ⟨h1, h2⟩ | ⟨c, hc, hne⟩
+    · cases ht : w.tag with
+      | nil => exact absurd ht h1
+      | cons a t =>
+        rw [ht] at h2
+        have h2' : ¬ w.body.dims = 2 + (t.length + 1) := by simpa using h2
+        simp [h2']
+    · simp only [Bool.or_eq_true, List.any_eq_true]
+      exact Or.inr ⟨c, hc, by simp [hne]⟩
+  simp [this]
+
+/-- an open ring read with `closed=True` is a `ValueError` (F13: polygon rings must be closed) -/
+theorem src_parse_open_ring (w : Wkt) (ring : List CoordT) (n : Nat) (cs : List (Coord F)) (a b : Coord F)
+    (hok : Src.Wkt.parseLinearRing io w ring (n : Int) false = .ok cs)
+    (ha : cs.head? = some a) (hb : cs.getLast? = some b) (hne : Coord.eqv io a b = false) :
+    Src.Wkt.parseLinearRing io w ring (n : Int) true = .error "ERR:Value" := by
+  rw [parseLinearRing_eq] at hok ⊢
+  unfold parseRing at hok ⊢
+  simp only [] at hok ⊢
+  split at hok
+  · simp at hok
+  · rename_i hc
+    rw [if_neg hc]
+    split at hok
+    · simp at hok
+    · rename_i cs' hm
+      simp only [Bool.false_eq_true, if_false] at hok
+      split at hok
+      · simp at hok
+      · rename_i hl
+        simp only [Except.ok.injEq] at hok
+        subst hok
+        simp [hl, ha, hb, hne]
+
+end Readers
 
 /-! ## the C13 headline theorems, restated for the translated writers -/
 
